@@ -491,5 +491,7 @@ def execute_plan(plan, sched_spec=None, light=False, quiet=True):
         except OSError:
             pass
     sys.setswitchinterval(1000.0)
+    from . import locks
+    locks.install()          # locks the library creates lazily during calls are cooperative too
     ex = Executor(plan, sched_spec, light=light)
     return ex.run()
